@@ -166,6 +166,80 @@ pub fn check_ids(trace: u128, span: u64) -> Vec<Viol> {
     if sjb != Some(span) {
         out.push(v("spanid-serde-roundtrip", format!("serde round trip of SpanId({:x}) = {:x?}", span, sjb)));
     }
+    out.extend(check_ids_serde_routes(trace, span));
+    out
+}
+
+/// "round-trip through serde" does not name a data format: the same text must deserialize whether
+/// the deserializer lends it (borrowed), passes it transiently, or hands over an owned String.
+fn check_ids_serde_routes(trace: u128, span: u64) -> Vec<Viol> {
+    use serde::de::value::{BorrowedStrDeserializer, Error as DeErr, StrDeserializer, StringDeserializer};
+    use serde::Deserialize;
+    let mut out = vec![];
+    let want_t = format!("{:032x}", trace);
+    let want_s = format!("{:016x}", span);
+    let r = catch_unwind(|| {
+        let mut res: Vec<(&'static str, Option<u128>, Option<u64>)> = vec![];
+        // serde_json::Value: owned strings both ways
+        let tv = serde_json::to_value(TraceId(trace)).ok();
+        let sv = serde_json::to_value(SpanId(span)).ok();
+        res.push((
+            "json-value",
+            tv.clone().and_then(|x| serde_json::from_value::<TraceId>(x).ok()).map(|x| x.0),
+            sv.clone().and_then(|x| serde_json::from_value::<SpanId>(x).ok()).map(|x| x.0),
+        ));
+        let tvs = tv.as_ref().and_then(|x| x.as_str().map(|s| s.to_string()));
+        let svs = sv.as_ref().and_then(|x| x.as_str().map(|s| s.to_string()));
+        // a reader: transient strings
+        let tj = format!("\"{}\"", want_t);
+        let sj = format!("\"{}\"", want_s);
+        res.push((
+            "json-reader",
+            serde_json::from_reader::<_, TraceId>(tj.as_bytes()).ok().map(|x| x.0),
+            serde_json::from_reader::<_, SpanId>(sj.as_bytes()).ok().map(|x| x.0),
+        ));
+        // the same text with its first character written as a JSON escape
+        let esc = |s: &str| format!("\"\\u{:04x}{}\"", s.as_bytes()[0] as u32, &s[1..]);
+        res.push((
+            "json-escaped",
+            serde_json::from_str::<TraceId>(&esc(&want_t)).ok().map(|x| x.0),
+            serde_json::from_str::<SpanId>(&esc(&want_s)).ok().map(|x| x.0),
+        ));
+        res.push((
+            "transient-str",
+            TraceId::deserialize(StrDeserializer::<DeErr>::new(&want_t)).ok().map(|x| x.0),
+            SpanId::deserialize(StrDeserializer::<DeErr>::new(&want_s)).ok().map(|x| x.0),
+        ));
+        res.push((
+            "owned-string",
+            TraceId::deserialize(StringDeserializer::<DeErr>::new(want_t.clone())).ok().map(|x| x.0),
+            SpanId::deserialize(StringDeserializer::<DeErr>::new(want_s.clone())).ok().map(|x| x.0),
+        ));
+        res.push((
+            "borrowed-str",
+            TraceId::deserialize(BorrowedStrDeserializer::<DeErr>::new(&want_t)).ok().map(|x| x.0),
+            SpanId::deserialize(BorrowedStrDeserializer::<DeErr>::new(&want_s)).ok().map(|x| x.0),
+        ));
+        (res, tvs, svs)
+    });
+    let Ok((res, tvs, svs)) = r else {
+        out.push(v("id-panic", format!("id serde codec panicked for ({:x},{:x})", trace, span)));
+        return out;
+    };
+    if tvs.as_deref() != Some(want_t.as_str()) {
+        out.push(v("traceid-serde-text", format!("serde value of TraceId({:x}) = {:?}", trace, tvs)));
+    }
+    if svs.as_deref() != Some(want_s.as_str()) {
+        out.push(v("spanid-serde-text", format!("serde value of SpanId({:x}) = {:?}", span, svs)));
+    }
+    for (route, t, s) in res {
+        if t != Some(trace) {
+            out.push(v("traceid-serde-roundtrip", format!("serde round trip ({}) of TraceId({:x}) = {:x?}", route, trace, t)));
+        }
+        if s != Some(span) {
+            out.push(v("spanid-serde-roundtrip", format!("serde round trip ({}) of SpanId({:x}) = {:x?}", route, span, s)));
+        }
+    }
     out
 }
 
@@ -177,6 +251,9 @@ pub fn check_text(text: &str) -> Vec<Viol> {
         let _ = SpanId::from_str(text);
         let _ = serde_json::from_str::<TraceId>(text);
         let _ = serde_json::from_str::<SpanId>(text);
+        use serde::Deserialize;
+        let _ = TraceId::deserialize(serde::de::value::StrDeserializer::<serde::de::value::Error>::new(text));
+        let _ = SpanId::deserialize(serde::de::value::StringDeserializer::<serde::de::value::Error>::new(text.to_string()));
     })
     .is_err()
     {
